@@ -132,6 +132,78 @@ def set_path(data, path, value):
     return None
 
 
+def _walk(nodes, acc):
+    for n in nodes:
+        acc.append(n)
+        _walk(n.get("ch", []) or [], acc)
+    return acc
+
+
+def paths_in_effect(res, tree, data, j, label, counter):
+    """every model / general l-value path held by an element of `tree` must address, in `data`, the value the same
+    attribute currently holds (top-level elements only: inside wx:for / template-is the data object differs)"""
+    bad = 0
+    for n in tree:
+        if n.get("k") != "elem":
+            continue
+        for key, rec in n.get("attrs", []) or []:
+            for fld, kind in (("model", "model"), ("lv", "general")):
+                pth = rec.get(fld)
+                if not (isinstance(pth, dict) and "$a" in pth):
+                    continue
+                path = dec_val(pth)
+                if kind == "general":
+                    if not path or path[0] != 0:
+                        continue
+                    path = path[1:]
+                counter[0] += 1
+                got = get_path(data, path)
+                if isinstance(got, dict) and "$unsupported" in got:
+                    continue
+                if json.dumps(_numnorm(got), sort_keys=True) != json.dumps(_numnorm(rec.get("v")), sort_keys=True):
+                    bad += 1
+                    if bad <= 2:
+                        res.violation("%s: the %s path %r held by %s no longer addresses the value it delivers: data at the path = %s, "
+                                      "value = %s" % (label, kind, path, key, json.dumps(got)[:100], json.dumps(rec.get("v"))[:100]),
+                                      {"src": j["src"], "data": data, "path": path, "attribute": key})
+    return bad
+
+
+def effect_stage(res):
+    """histories of the expression-shape matrix (update steps) and binding-map updates of its attribute-only templates"""
+    matrix = behave.get_results(res.tier, res.seed, "behave_matrix")
+    counter = [0]
+    bad = 0
+    jobs = []
+    meta = []
+    for rr in matrix:
+        j, run0 = rr["job"], rr["run"]
+        if run0.get("error"):
+            continue
+        for k, t in enumerate(run0["trees"]):
+            if bad < 6:
+                bad += paths_in_effect(res, t, j["datas"][k], j, "after update step %d" % k, counter)
+        if "matrix-attrs-only" not in j.get("features", []):
+            continue
+        d0 = j["datas"][0]
+        for f in sorted(run0.get("B") or {}):
+            for alt in (0, 1, 2, "", "a", "x", "b", None, True):
+                if d0["$o"].get(f) == alt:
+                    continue
+                d1 = copy.deepcopy(d0)
+                d1["$o"][f] = alt
+                jobs.append({"op": "run", "id": "b", "bundle": j["bundle"], "path": j["path"], "slotValues": j.get("slotValues"),
+                             "steps": [{"create": d0}, {"bmap": f, "data": d1}]})
+                meta.append((j, f, d1))
+    out = node_jobs(jobs, shards=12)
+    for (j, f, d1), o in zip(meta, out):
+        if o.get("error"):
+            continue
+        if bad < 6:
+            bad += paths_in_effect(res, o["trees"][1], d1, j, "after the binding-map update of field %r" % f, counter)
+    return counter[0], bad
+
+
 def run(res):
     ok, what = (True, "")
     if THEOREMS:
@@ -146,7 +218,10 @@ def run(res):
             if nl <= 3:
                 res.violation("l-value path text differs from the Coq model: impl=%s model lvalue=%s" % (
                     dec(i.split("|")[0])[:300], dec(m.split("|")[5])[:200]), {"case": c.split("\t"), "impl": i, "model": m}, no_input=True)
-    results = behave.get_results(res.tier, res.seed, "behave")
+    n_eff, f_eff = effect_stage(res)
+    found += f_eff
+    res.notes["paths_in_effect_checked"] = n_eff
+    results = behave.get_results(res.tier, res.seed, "behave") + behave.get_results(res.tier, res.seed, "behave_matrix")
     n_paths = 0
     kinds = {}
     put_jobs = []
@@ -238,7 +313,7 @@ def run(res):
             n_put_unobservable += 1   # writing the sentinel changed the structure (e.g. a condition): not comparable
     if not ok:
         res.violation(what, {"obligation": "Properties/C11.v"}, no_input=(found == 0))
-    res.cov["evaluations"] = rt["n"] + n_paths + n_put
+    res.cov["evaluations"] = rt["n"] + n_paths + n_put + n_eff
     res.cov["distinct_nontrivial"] = n_put_ok
     res.cov["rule"] = ("every l-value path array observed by the reference runtime on creation of the behavioural templates "
                        "(model:, event, change:, slot values, wx:for lists incl. nested for-items): get = data at path equals the "
